@@ -531,6 +531,35 @@ class Build:
         return [(s_, r) for s_ in self.sends for r in self.recvs if Explorer.compatible(self.sends[s_], self.recvs[r])
                 and self.msgs[r]["cap"] * self.msgs[r]["tsize"] < self.thr[0] <= self.msgs[s_]["nbytes"]]
 
+    def two_mailbox_risk(self):
+        """ingredients of the two known non-overtaking defects (two mailboxes per receiver): used to attribute a DEADLOCK of a valid
+        program to them (the wrong message goes to a receive, a later receive then waits for ever)"""
+        if self.thr[0] <= 0:
+            return None
+        M = self.msgs
+        S, R = self.sends, self.recvs
+        for a in S:
+            for c in S:
+                if (S[a]["rank"], S[a]["dst"], S[a]["comm"]) == (S[c]["rank"], S[c]["dst"], S[c]["comm"]) and S[a]["seq"] < S[c]["seq"] \
+                        and mailbox(self, M[a]) == "large" and mailbox(self, M[c]) == "small" \
+                        and any(Explorer.compatible(S[a], R[r]) and Explorer.compatible(S[c], R[r]) for r in R):
+                    return "send-side"
+        for r1 in R:
+            for r2 in R:
+                if (R[r1]["rank"], R[r1]["comm"]) == (R[r2]["rank"], R[r2]["comm"]) and R[r1]["seq"] < R[r2]["seq"] \
+                        and M[r1]["cap"] * M[r1]["tsize"] < self.thr[0] <= M[r2]["cap"] * M[r2]["tsize"] \
+                        and any(mailbox(self, M[x]) == "small" and Explorer.compatible(S[x], R[r1]) and Explorer.compatible(S[x], R[r2]) for x in S):
+                    return "recv-side"
+        return None
+
+    def blocked_sig(self, default):
+        if self.across_thresh():
+            return "deadlock:truncation-across-async-thresh"
+        risk = self.two_mailbox_risk()
+        if risk:
+            return "deadlock:two-mailboxes:" + risk
+        return default
+
     def size_class(self, nbytes):
         return "eager" if nbytes < self.thr[0] else ("detached" if nbytes < self.thr[1] else "rendezvous")
 
@@ -579,7 +608,7 @@ def judge(b, res, oc, E):
             elif t == "precv":
                 kind = op["mode"] + "+recv"
                 if rec.get("gaveup"):
-                    bad("deadlock:truncation-across-async-thresh" if b.across_thresh() else "progress:iprobe", "rank %d: %d calls of MPI_Iprobe%s never saw the message although the program cannot block"
+                    bad(b.blocked_sig("progress:iprobe"), "rank %d: %d calls of MPI_Iprobe%s never saw the message although the program cannot block"
                         % (p, rec["calls"], b.show_pattern(op["k"])))
                     return
                 if "cap" not in rec:
@@ -595,7 +624,7 @@ def judge(b, res, oc, E):
                     kinds = "+".join(sorted(set("send" if w == "s" else "recv" for w, _ in op["reqs"])))
                     bad("complete:%s:%s:%s" % (mode, what, kinds), "rank %d, MPI_%s over the requests %s: %s" % (p, mode.capitalize(), op["reqs"], rec["bad"]))
                 if rec.get("gaveup"):
-                    bad("deadlock:truncation-across-async-thresh" if b.across_thresh() else "progress:" + mode, "rank %d: %d calls of MPI_%s did not complete %s although the program cannot block"
+                    bad(b.blocked_sig("progress:" + mode), "rank %d: %d calls of MPI_%s did not complete %s although the program cannot block"
                         % (p, rec["calls"], mode.capitalize(), op["reqs"]))
                     return
                 evs = {tuple((e["req"][1], int(e["req"][2:]))): e for e in rec["ev"]}
@@ -643,6 +672,28 @@ def judge(b, res, oc, E):
         classes.setdefault((m["d"], m["comm"], src, o["tag"]), []).append(k)
     if oc.violations:
         return
+    crc = {}
+    for p, (i, names) in b.crc_index.items():
+        rec = res.get(p, i)
+        if rec is None:
+            bad("not-executed", "rank %d did not report the final buffer check" % p)
+            return
+        for name, r in zip(names, rec["res"]):
+            crc[int(name[1:])] = r
+
+    def fits(r, s_):
+        """does what receive r observed (count, bytes, truncation) look like message s_ ?"""
+        o, m, sm_ = obs[r], M[r], M[s_]
+        c = crc.get(r)
+        if c is None:
+            return False
+        if sm_["count"] > o["cap"]:
+            return o["rc"] == TRUNC or o["err"] == TRUNC
+        if o["count"] != sm_["count"] or o["rc"] == TRUNC or o["err"] == TRUNC:
+            return False
+        capb = o["cap"] * m["tsize"]
+        return c[1] == zlib.crc32(pat_bytes(seed_for(sm_["k"], sm_["s"]), sm_["s"], sm_["nbytes"]) + bytes([FILL]) * (capb - sm_["nbytes"]))
+
     got = {}            # receive k -> message it holds
     for (q, comm, src, tag), rks in sorted(classes.items()):
         sks = sorted((s for s in b.sends if b.sends[s]["dst"] == q and b.sends[s]["comm"] == comm and b.sends[s]["rank"] == src
@@ -652,21 +703,36 @@ def judge(b, res, oc, E):
             bad("phantom-message", "rank %d completed %d receives with status (source world rank %d, tag %d) on communicator %s but only %d such "
                 "messages were sent to it: receives for %s, messages %s" % (q, len(rks), src, tag, comm[1], len(sks), rks, sks))
             return
-        for r, s in zip(rks, sks):
-            got[r] = s
+        pairs = list(zip(rks, sks))
+        if 2 <= len(rks) <= 5 and len(rks) == len(sks) and not all(fits(r, s_) for r, s_ in pairs):
+            # the k-th receive of this envelope does not hold the k-th message: is it a permutation of the messages ?
+            import itertools
+            for perm in itertools.permutations(sks):
+                if all(fits(r, s_) for r, s_ in zip(rks, perm)):
+                    def rbox(r):
+                        return "small" if (b.thr[0] > 0 and obs[r]["cap"] * M[r]["tsize"] < b.thr[0]) else "large"
+                    # first inversion: receives ri < rj holding messages sb > sa
+                    inv_ = [(ri_, rj_) for x, ri_ in enumerate(rks) for rj_ in rks[x + 1:]
+                            if b.sends[perm[rks.index(ri_)]]["seq"] > b.sends[perm[rks.index(rj_)]]["seq"]]
+                    ri_, rj_ = inv_[0]
+                    sa_, sb_ = perm[rks.index(rj_)], perm[rks.index(ri_)]
+                    cause = ("truncation-across-async-thresh" if obs[ri_]["cap"] * M[ri_]["tsize"] < b.thr[0] <= M[sa_]["nbytes"] else
+                             "two-mailboxes:recv-side" if (rbox(ri_), rbox(rj_), mailbox(b, M[sa_])) == ("small", "large", "small") else "other")
+                    bad("overtaking:%s:same-envelope:recv-%s>%s:msg-%s>%s" % (cause, rbox(ri_), rbox(rj_), mailbox(b, M[sa_]), mailbox(b, M[sb_])),
+                        "world rank %d sent the messages %s (in this order, all with tag %d, sizes %s bytes, modes %s) to world rank %d on communicator %s, "
+                        "which posted the receives %s in this order (capacities %s bytes, kinds %s); they hold the messages %s: the order is not "
+                        "preserved  [smpi/async-small-thresh:%d smpi/send-is-detached-thresh:%d]"
+                        % (src, sks, tag, [M[x]["nbytes"] for x in sks], [M[x]["mode"] for x in sks], q, comm[1], rks,
+                           [obs[r]["cap"] * M[r]["tsize"] for r in rks], [obs[r]["kind"] for r in rks], list(perm), b.thr[0], b.thr[1]))
+                    pairs = list(zip(rks, perm))
+                    break
+        for r, s_ in pairs:
+            got[r] = s_
     if len(set(got.values())) != len(M):
         bad("phantom-message", "the completed receives do not account for every message exactly once: %s" % got)
         return
 
     # ---- 2. per receive: truncation, count, bytes
-    crc = {}
-    for p, (i, names) in b.crc_index.items():
-        rec = res.get(p, i)
-        if rec is None:
-            bad("not-executed", "rank %d did not report the final buffer check" % p)
-            return
-        for name, r in zip(names, rec["res"]):
-            crc[int(name[1:])] = r
     # which multi-completion calls returned a truncated receive
     trunc_in_call = set()
     for m in M:
@@ -753,7 +819,27 @@ def judge(b, res, oc, E):
             ra = inv[a["k"]]
             if Explorer.compatible(sa, b.recvs[rb]) and b.recvs[ra]["seq"] > b.recvs[rb]["seq"]:
                 kind = obs[rb]["kind"]
-                bad("overtaking:%s>%s" % (mailbox(b, a), mailbox(b, c)),
+
+                def rbox(r):
+                    return "small" if (b.thr[0] > 0 and obs[r]["cap"] * M[r]["tsize"] < b.thr[0]) else "large"
+                # the two known mechanisms (SMPI keeps two mailboxes per receiver: 'small' for eager messages and receives smaller than
+                # smpi/async-small-thresh, 'large' for the rest)
+                blocked = [x for x in M if b.sends[x["k"]]["rank"] == sa["rank"] and b.sends[x["k"]]["comm"] == sa["comm"]
+                           and b.sends[x["k"]]["dst"] == sa["dst"] and b.sends[x["k"]]["seq"] <= sa["seq"] and mailbox(b, x) == "large"
+                           and Explorer.compatible(b.sends[x["k"]], b.recvs[rb]) and b.recvs[inv[x["k"]]]["seq"] > b.recvs[rb]["seq"]]
+                if obs[rb]["cap"] * M[rb]["tsize"] < b.thr[0] <= a["nbytes"]:
+                    # the receive is smaller than smpi/async-small-thresh and the first message is not: SMPI never lets them meet
+                    # (the oversized message should have been delivered, truncated, to this receive)
+                    cause = "truncation-across-async-thresh"
+                elif mailbox(b, c) == "small" and blocked:
+                    # the first message (or an earlier one with its tag, which SMPI's per-tag sequence numbers make it wait for) sits in
+                    # the 'large' mailbox, the second one in the 'small' mailbox, which receives look at first
+                    cause = "two-mailboxes:send-side"
+                elif (rbox(rb), rbox(ra), mailbox(b, a)) == ("small", "large", "small"):
+                    cause = "two-mailboxes:recv-side"
+                else:
+                    cause = "other"
+                bad("overtaking:%s:msg-%s>%s:recv-%s>%s" % (cause, mailbox(b, a), mailbox(b, c), rbox(rb), rbox(ra)),
                     "world rank %d sent message %d (tag %d, %d bytes, %s, %s) then message %d (tag %d, %d bytes, %s, %s) to world rank %d on communicator "
                     "%s; its receive%s (%s) could match both and got the SECOND one while the first one went to a receive posted later%s  "
                     "[smpi/async-small-thresh:%d smpi/send-is-detached-thresh:%d]"
